@@ -224,8 +224,25 @@ pub fn cmd_abi2(a: &[&str]) -> String {
         if ctx.is_null() {
             return format!("rust=- c=open_err:kind={}", err.kind as i32);
         }
+        if mode == "growbound" {
+            // both clients answer once on the first record, then the daemon publishes a record whose bound grew by far more than the
+            // time between the calls (the interval's lower end moves back): both must follow it
+            set_clock(real, mono);
+            let _ = rc.now();
+            clock_off();
+            set_clock(real, mono);
+            let mut res0: std::mem::MaybeUninit<[u8; 64]> = std::mem::MaybeUninit::zeroed();
+            let _ = crate::ffi::clockbound_now(ctx, res0.as_mut_ptr() as *mut crate::ffi::clockbound_now_result);
+            clock_off();
+        }
         let mut f = std::fs::OpenOptions::new().write(true).open(&p2).expect("open for patch");
         match mode.as_str() {
+            "growbound" => {
+                f.seek(SeekFrom::Start(16)).unwrap();
+                f.write_all(&record_bytes((100, 0), (1100, 0), 5_000_000_000, 1000, 1)).unwrap();
+                f.seek(SeekFrom::Start(14)).unwrap();
+                f.write_all(&4u16.to_ne_bytes()).unwrap();
+            }
             "oddgen" => {
                 f.seek(SeekFrom::Start(14)).unwrap();
                 f.write_all(&3u16.to_ne_bytes()).unwrap();
